@@ -6,6 +6,7 @@ def explore(run, lean):
     instr_corr.explore(run, "C19", 400 if run.tier == "quick" else 8000)
     if "C19" == "C20":
         instr_corr.deep_probe(run)
+    instr_corr.clear_probe(run, "C19", 620 if run.tier == "quick" else 1500)
     run.extra["rule"] = ("random spied charts (<=7 states) on an instrumented HsmWithQueues whose handlers post/defer/recall/scribble; "
                          "scripts of start_at + 2-12 client ops (posts, defer, recall, next_rtc), some with a post before start_at; "
                          "ring sizes real (250/500/500) or reduced (full spy 20-120, trace 2-5); scripted clocks (fine, coarse, "
